@@ -167,7 +167,7 @@ fn is_ident(t: &str) -> bool {
     t.chars().next().map(|c| c.is_ascii_alphabetic()).unwrap_or(false) && t != "in"
 }
 
-fn ref_parse(tokens: &[String]) -> Result<S, ()> {
+pub fn ref_parse(tokens: &[String]) -> Result<S, ()> {
     let mut p = RP { t: tokens, i: 0 };
     let s = p.expr()?;
     if p.i != tokens.len() {
@@ -473,7 +473,15 @@ impl Space {
         *self.offsets.last().unwrap()
     }
 
-    fn tokens_of(&self, idx: u64) -> (Vec<String>, bool) {
+    /// index bound of the sequences with at most `k` operators (blocks are ordered by k)
+    pub fn bound_for_k(&self, k: usize) -> u64 {
+        match self.blocks.iter().position(|(bk, _)| *bk > k) {
+            Some(i) => self.offsets[i],
+            None => self.size(),
+        }
+    }
+
+    pub fn tokens_of(&self, idx: u64) -> (Vec<String>, bool) {
         let bi = match self.offsets.binary_search(&idx) {
             Ok(i) => i,
             Err(i) => i - 1,
